@@ -109,28 +109,13 @@ nobody holds a connection, all waiters sleep, and the only enabled events — `_
 `_run_gc` — are the identity for EVERY environment.
 -/
 
-def okEv : Ev → Bool
-  | .prune _ _ => false
-  | .pall => false
-  | _ => true
-
-theorem noPrune_of_ok {e : Ev} (h : okEv e = true) : Prims.NoPruneEv e := by
-  cases e with
-  | prune p n => simp [okEv] at h
-  | pall => simp [okEv] at h
-  | _ => exact ⟨fun _ _ => by simp, by simp⟩
-
-theorem noPrune_all {evs : List (Env × Ev)} (h : evs.all (fun x => okEv x.2) = true) :
-    ∀ x ∈ evs, Prims.NoPruneEv x.2 :=
-  fun x hx => noPrune_of_ok (List.all_eq_true.mp h x hx)
-
 /-- Counterexample 1 (GC race, `max = 1`, two databases, no fault): a fair history — every
     event of it is enabled (`err = none`) — ends in a `Dead` state with a sleeping request and
     all capacity free. -/
 theorem C16_counterexample_gc_race :
     ∃ evs : List (Env × Ev), (∀ x ∈ evs, Prims.NoPruneEv x.2) ∧ Dead (run (init 1) evs) ∧
       (run (init 1) evs).cur = 0 :=
-  ⟨gcRace, noPrune_all (by decide), gcRace_end ▸ gcRaceEnd_dead, gcRace_end ▸ rfl⟩
+  ⟨gcRace, Prims.noPrune_all (by decide), gcRace_end ▸ gcRaceEnd_dead, gcRace_end ▸ rfl⟩
 
 /-- Counterexample 2 (a `_tick` in the loop iteration of two `release()`s shrinks the block —
     discarding its whole idle stack — before the woken waiter resumes; `max = 3`, no fault):
@@ -138,11 +123,11 @@ theorem C16_counterexample_gc_race :
 theorem C16_counterexample_tick_shrink :
     ∃ evs : List (Env × Ev), (∀ x ∈ evs, Prims.NoPruneEv x.2) ∧ Dead (run (init 3) evs) ∧
       (run (init 3) evs).cur = 0 :=
-  ⟨tickShrink, noPrune_all (by decide), tickShrink_end ▸ tickShrinkEnd_dead, tickShrink_end ▸ rfl⟩
+  ⟨tickShrink, Prims.noPrune_all (by decide), tickShrink_end ▸ tickShrinkEnd_dead, tickShrink_end ▸ rfl⟩
 
 /-! ### Non-vacuity -/
 
-example : InvQ (run (init 1) gcRace) := (waiters_consistent 1 gcRace (noPrune_all (by decide))).2
+example : InvQ (run (init 1) gcRace) := (waiters_consistent 1 gcRace (Prims.noPrune_all (by decide))).2
 
 /-- a state in which `Inv₂` is not vacuous: a sleeping waiter, an idle connection, a woken waiter -/
 def exEvs : List (Env × Ev) :=
@@ -150,6 +135,6 @@ def exEvs : List (Env × Ev) :=
 
 example : (run (init 1) exEvs).blocks.any (fun b => !b.queue.isEmpty && !b.stack.isEmpty) = true ∧
     InvQ (run (init 1) exEvs) :=
-  ⟨by decide, (waiters_consistent 1 _ (noPrune_all (by decide))).2⟩
+  ⟨by decide, (waiters_consistent 1 _ (Prims.noPrune_all (by decide))).2⟩
 
 end EdbVerif.C16
